@@ -21,7 +21,7 @@ def plan(tier, seed):
         conds += t1_conds("c01", "reduced", 5, 13, timeout=1500)
         for ctx in range(1, len(P.CONTEXTS)):
             conds += t1_conds("c01", "full", 2, 4, ctx=ctx, timeout=600)
-        conds += t2_conds("c01", 4, timeout=1500)
+        conds += t2_conds("c01", 4, timeout=2400, split=6)
         conds += t2_conds("c01", 3, timeout=600, sep="crlf")
         bounds = {"T1": "full vocabulary N=3 (LF, CRLF); reduced vocabulary N=5; contexts x full N=2",
                   "T2": "every command, K=4 argument tokens (LF), K=3 (CRLF)"}
